@@ -159,7 +159,7 @@ struct Gen {
 			// with every claim refuted, and what the driver says then must still not be a verdict it never certified
 			Fault b; b.kind = "flt.basis"; b.a["stage"] = "-1"; b.a["mode"] = "swap"; b.a["k"] = std::to_string(r.below(1000)); if (ok("fault:flt.basis")) o.faults.push_back(b);
 			Fault v; v.kind = "flt.vec"; v.a["stage"] = "-1"; v.a["which"] = std::vector<std::string>{"x", "pi", "infeas"}[r.below(3)]; v.a["mode"] = std::vector<std::string>{"neg", "one", "huge", "bump"}[r.below(4)]; v.a["idx"] = std::to_string(r.below(40)); if (ok("fault:flt.vec")) o.faults.push_back(v);
-			if (r.chance(1, 2)) { Fault s; s.kind = "flt.status"; s.a["stage"] = "-1"; s.a["to"] = std::to_string(r.below(2)); if (ok("fault:flt.status")) o.faults.push_back(s); }
+			if (r.chance(1, 2)) { Fault s; s.kind = "flt.status"; s.a["stage"] = "-1"; s.a["to"] = std::to_string(r.below(2)); if (r.chance(1, 2)) s.a["alt"] = "1"; if (ok("fault:flt.status")) o.faults.push_back(s); }
 			return;
 		}
 		int k = r.range(1, 3);
